@@ -81,6 +81,8 @@ def scale_float(chk: Check, n):
 
         pow2 = k % 2 == 0
         c = float(2.0 ** rng.integers(-20, 21)) if pow2 else float(10.0 ** rng.uniform(-6, 6))
+        if k % 6 == 4:
+            c = float(2.0 ** rng.choice([-60, -45, -33, 40, 70]))     # very small / very large units: variances ~1e-36 … 1e+42
         try:
             r0 = run(x, z)
             r1 = run(x * c, z)
